@@ -5,6 +5,7 @@
 mod c16;
 mod c03;
 mod c15;
+mod c15probe;
 mod c20;
 mod c05;
 mod c11;
@@ -65,6 +66,7 @@ fn main() {
         "C16" => c16::run,
         "C03" => c03::run,
         "C15" => c15::run,
+        "C15STAT" => c15probe::run,
         "C20" => c20::run,
         "C05" => c05::run,
         "C11" => c11::run,
